@@ -30,6 +30,7 @@ Histories are concrete, replayable operation lists (indices into the pool,
 reduced modulo the current length when applied), so that a ddmin shrinker can
 drop operations while the same key still fires.
 """
+import copy
 import functools
 
 from traits.api import (Any, HasTraits, Int, Instance, List, Dict, Set, Str,
@@ -56,7 +57,11 @@ META = {
              "(materialised by a read after observe(), replaced, or assigned to themselves unread), "
              "'n' enumerated and 'r' random histories with a named dynamic trait (Int / Instance / "
              "List, added to every node before observe() and named by ordinary expressions) that is "
-             "removed, added again under the same or another kind and used again.  "
+             "removed, added again under the same or another kind and used again, 'f' enumerated "
+             "re-definitions (add_trait over an already defined class-level or dynamic name that holds "
+             "a value on the path, then detaching ops; also a random op), 's' enumerated state "
+             "snapshots (copy.copy / __getstate__() / trait_get() of a node whose defaults were never "
+             "read, after observe(); also a random op).  "
              "distinct_nontrivial "
              "counts distinct (stratum, step kind, method, expression shape, text/object form, all-equal "
              "flag, expected, observed) signatures of steps in which the model expected an event, an "
@@ -81,7 +86,9 @@ META = {
                   "histories_multiplicity": 90, "histories_const_default": 80,
                   "histories_named_dynamic": 95, "histories_dynamic": 130, "remove_trait_ops": 350,
                   "remove_trait_reached": 150, "readd_ops": 300, "readd_reached": 150,
-                  "readd_events_matched": 300},
+                  "readd_events_matched": 250, "redefine_ops": 500, "redefine_valued_on_path": 120,
+                  "snapshot_ops": 500, "snapshot_default_reads": 220, "histories_redefine": 50,
+                  "histories_snapshot": 44},
         "thorough": {"evaluations": 6000000, "probe_matched": 200000, "probe_silent": 4000000,
                      "detached_silent": 80000, "container_events_matched": 240000,
                      "link_events_matched": 10000, "quiet_link_silent": 60000,
@@ -95,8 +102,10 @@ META = {
                      "reslice_ops": 1200, "multiplicity_change_events": 300, "const_default_reads": 600,
                      "histories_multiplicity": 90, "histories_const_default": 80,
                      "histories_named_dynamic": 95, "histories_dynamic": 4000, "remove_trait_ops": 7000,
-                     "remove_trait_reached": 1800, "readd_ops": 6000, "readd_reached": 1600,
-                     "readd_events_matched": 4000},
+                     "remove_trait_reached": 1700, "readd_ops": 6000, "readd_reached": 1500,
+                     "readd_events_matched": 4000, "redefine_ops": 12000,
+                     "redefine_valued_on_path": 1800, "snapshot_ops": 12000,
+                     "snapshot_default_reads": 4500, "histories_redefine": 50, "histories_snapshot": 44},
     },
     "assumptions": [
         "the reachability model (denotation of the mini-language over __dict__ values and the "
@@ -196,6 +205,27 @@ def make_added_trait(name, kind=None):
         return Instance(Node, link=True)
     kind = kind or ADDABLE[name][0]
     return Int() if kind == "int" else Instance(Node) if kind == "link" else List(Instance(Node))
+
+
+REDEFINABLE = ("value", "m1", "child", "other", "children", "cmap", "cset")
+
+
+def make_redefinition(name, kind=None):
+    """Same-kind definition for add_trait over an already defined name (keeps
+    the metadata the harness schema knows about)."""
+    if name == "value":
+        return Int()
+    if name == "m1":
+        return Int(tag=True)
+    if name in ("child", "other"):
+        return Instance(Node, link=True)
+    if name == "children":
+        return List(Instance(Node))
+    if name == "cmap":
+        return Dict(Str, Instance(Node))
+    if name == "cset":
+        return Set(Instance(Node))
+    return make_added_trait(name, kind)
 
 
 def _ckind(c):
@@ -661,6 +691,7 @@ class World:
         self.dyn = spec.get("dyn")
         self.last_rep = None
         self.after_readd = None
+        self.last_redef = None
         self.any_dyn_list = False
         self.retired_owner = {}    # id(retired container) -> (id(owner), trait name)
         self.selfdef = False       # sticky signature, see unread_default_assign
@@ -1092,6 +1123,56 @@ class World:
                 if again:
                     self.sink.count("readd_reached")
 
+    # -- primitive: add_trait over an already defined name (documented re-definition) ----
+    def do_redefine(self, obj, name):
+        """The name keeps its kind, value and notifiers: no trait_added, no change,
+        nothing for any handler; the model is unchanged."""
+        kind = self.added.get(id(obj), {}).get(name)
+        what = "%r.add_trait(%r, <same kind>)  [re-definition]" % (obj, name)
+        valued = name in obj.__dict__
+        exc = self._run(lambda: obj.add_trait(name, make_redefinition(name, kind)))
+        m0, m1 = self._post(exc, what)
+        self.sink.count("redefine_ops")
+        key = ("t", id(obj), name)
+        for k, reg in enumerate(self.regs):
+            self._judge_trait(k, reg, what, obj, name, {0}, "redefine", None, None, "redefine", name)
+            if valued and key in m0[k].depths:
+                self.sink.count("redefine_valued_on_path")
+                self._sig(reg, "redefine", name, key in m0[k].notif, 0)
+        if valued:
+            self.last_redef = (obj, name)
+
+    # -- primitive: state snapshot (copy.copy / __getstate__ / trait_get) ------------------
+    def do_snapshot(self, obj, how):
+        """Taking a snapshot reads every trait: it materialises the defaults
+        that were never read exactly like the read ops, silently."""
+        what = "%s of %r" % ({"copy": "copy.copy", "getstate": "__getstate__()",
+                              "trait_get": "trait_get()"}[how], obj)
+        unread = [nm for nm in LINKS + tuple(CONTS) + DYN_NAMES
+                  if self.has(obj, nm) and nm not in obj.__dict__]
+        keep = []
+        if how == "copy":
+            thunk = lambda: keep.append(copy.copy(obj))            # noqa: E731
+        elif how == "getstate":
+            thunk = lambda: keep.append(obj.__getstate__())        # noqa: E731
+        else:
+            thunk = lambda: keep.append(obj.trait_get())           # noqa: E731
+        exc = self._run(thunk)
+        for _ in range(3):
+            self.adopt()
+        m0, m1 = self._post(exc, what)
+        self.sink.count("snapshot_ops")
+        for k, reg in enumerate(self.regs):
+            evs = self._events(k)
+            self.sink.ev()
+            if evs:
+                raise Complaint("stale-hook", "%s: handler %d got %r" % (what, k, evs[:2]),
+                                {"step": what, "reg": k}, "default-read")
+            for nm in unread:
+                if nm in obj.__dict__ and ("t", id(obj), nm) in m0[k].depths:
+                    self.sink.count("snapshot_default_reads")
+                    self._sig(reg, "snapshot", how, nm, 0)
+
     # -- primitive: remove_trait (outside the statement; the way to a second add) ------
     def do_remove_trait(self, obj, name):
         """remove_trait drops the instance trait, its value and its notifiers
@@ -1160,10 +1241,10 @@ class World:
         # mutation seen through that auxiliary trait; its firing rules are not part of the
         # statement, so at most one such event is tolerated and never required or forbidden
         items_key = None
-        if kind == "list" and self.any_dyn_list:
+        if self.any_dyn_list:
             for nd in self.pool + self.temp:
-                for nm, kd in self.added.get(id(nd), {}).items():
-                    if kd == "list" and nd.__dict__.get(nm) is c:
+                for nm, _, c2 in self.conts_of(nd):
+                    if c2 is c:
                         items_key = ("t", id(nd), nm + "_items")
         for k, reg in enumerate(self.regs):
             n0, n1 = key in m0[k].notif, key in m1[k].notif
@@ -1353,7 +1434,8 @@ class World:
         if a is None:
             return False
         tg = [self.node(t) for t in self.targets(op)]
-        if op[0] == "read" and op[2] == "cdef" and "cdef" not in a.__dict__ and type(a) is self.cls:
+        if (op[0] == "snap" or (op[0] == "read" and op[2] == "cdef")) and "cdef" not in a.__dict__ \
+                and type(a) is self.cls:
             tg.append(self.shared)             # the read will materialise the edge a -> shared
         for n in tg:
             if n is None:
@@ -1408,6 +1490,19 @@ class World:
         elif k == "remove_trait":
             if op[2] in self.added.get(id(a), ()):
                 self.do_remove_trait(a, op[2])
+        elif k == "redefine":
+            if self.has(a, op[2]) and (op[2] in REDEFINABLE or op[2] in self.added.get(id(a), ())):
+                self.do_redefine(a, op[2])
+        elif k == "snap":
+            if "lazy" not in a.__dict__ and len(self.pool) >= 12:
+                return
+            how = op[2]
+            if how == "copy" and self.added.get(id(a)):
+                # the copy is a new instance of the class WITHOUT the dynamic traits: setting
+                # its state resolves those names through the class wildcard, which caches
+                # them as class-level traits (by design) - a different history
+                how = "getstate"
+            self.do_snapshot(a, how)
         elif k in ("l", "d", "s"):
             tr, method = op[2], op[3]
             if self.cont_kind(a, tr) is None or not self.has(a, tr):
@@ -1645,6 +1740,7 @@ class World:
 
 OPCLASS = {"set": "assign-link", "setcont": "assign-container", "recont": "assign-equal-container",
            "read": "default-read", "add_trait": "add-trait", "remove_trait": "remove-trait",
+           "redefine": "redefine-trait", "snap": "snapshot",
            "observe": "registration"}
 
 
@@ -1873,6 +1969,12 @@ def script(spec, actions):
             lines.append("n%d.add_trait(%r, %s)" % (act[1], act[2], _trait_src(act[2], kd)))
         elif k == "remove_trait":
             lines.append("n%d.remove_trait(%r)" % (act[1], act[2]))
+        elif k == "redefine":
+            lines.append("n%d.add_trait(%r, <same kind of trait>)   # the name is already defined"
+                         % (act[1], act[2]))
+        elif k == "snap":
+            lines.append({"copy": "copy.copy(n%d)", "getstate": "n%d.__getstate__()",
+                          "trait_get": "n%d.trait_get()"}[act[2]] % act[1] + "   # result discarded")
         else:
             a, tr, m, args = act[1], act[2], act[3], act[4:]
             tgt = "n%d.%s" % (a, tr)
@@ -1934,7 +2036,7 @@ def _wchoice(rng, table):
 
 
 OP_TABLE = [("set", 16), ("setcont", 8), ("recont", 5), ("l", 24), ("d", 12), ("s", 10),
-            ("read", 6), ("add_trait", 4)]
+            ("read", 6), ("add_trait", 4), ("redefine", 4), ("snap", 4)]
 L_METHODS = [("append", 5), ("extend", 4), ("iadd", 1), ("insert", 3), ("setitem", 5), ("setslice", 3),
              ("extslice", 1), ("delitem", 3), ("delslice", 2), ("pop", 2), ("remove", 3), ("reverse", 1),
              ("sort", 1), ("clear", 1), ("imul", 1), ("reslice", 5), ("extfirst", 1)]
@@ -1997,6 +2099,26 @@ def gen_op(rng, W, names, cyclic):
                     0.55 if "xlink" in names else 0.1):
                 tr = "xlink"
             op = ["set", a, tr, pick_b(a)]
+        elif k == "redefine":
+            # add_trait over a name that is already defined, preferably one that holds a
+            # value and lies on the path of an observed expression
+            cands = []
+            for i, p_ in enumerate(W.pool):
+                for nm in REDEFINABLE + tuple(W.added.get(id(p_), ())):
+                    on_path = any(("t", id(p_), nm) in m.depths for m in W.models)
+                    cands.append((3 * (nm in p_.__dict__) + 3 * on_path + 1, i, nm))
+            tot = sum(c[0] for c in cands)
+            x = rng.random() * tot
+            for w, i, nm in cands:
+                x -= w
+                if x < 0:
+                    break
+            op = ["redefine", i, nm]
+        elif k == "snap":
+            fresh = [i for i in (vis_idx or range(n))
+                     if any(nm not in W.pool[i].__dict__ for nm in ("lazy", "children", "cmap", "cset", "cdef"))]
+            op = ["snap", rng.choice(fresh) if fresh and rng.random() < 0.8 else a,
+                  rng.choice(["copy", "getstate", "trait_get"])]
         elif k == "remove_trait":
             good = [x for x in removable if x[0] in vis_idx and x[1] in names]
             i, nm = rng.choice(good) if good and rng.random() < 0.75 else rng.choice(removable)
@@ -2163,7 +2285,8 @@ def seed_ops(rng, paths, root, npool, cyc, pre=True):
             break
         if arg in LINKS or arg == "xlink":
             if arg == "lazy" and rng.random() < 0.4:
-                ops.append(["read", cur, "lazy"])
+                ops.append(["read", cur, "lazy"] if pre or rng.random() < 0.5 else
+                           ["snap", cur, rng.choice(["copy", "getstate", "trait_get"])])
                 break
             if arg == "cdef":
                 # constant default: mostly left to be materialised by a read AFTER observe()
@@ -2315,6 +2438,27 @@ def random_history(ctx, rng, stratum):
                                     ["l", idx, nm, "extend", [b, b]]])
                     if cyc or not W.would_cycle(op):
                         return op
+        if W.last_redef is not None:
+            # after re-defining a trait that holds a value: usually detach (part of) the value
+            (o, nm), W.last_redef = W.last_redef, None
+            idx = [j for j, n_ in enumerate(W.pool) if n_ is o]
+            v = o.__dict__.get(nm)
+            if idx and rng.random() < 0.75 and id(o) not in W.tainted:
+                if isinstance(v, Node):
+                    free = [j for j, n_ in enumerate(W.pool) if n_ is not v and id(n_) not in W.tainted]
+                    op = ["set", idx[0], nm, rng.choice(free + [None])]
+                    if cyc or not W.would_cycle(op):
+                        return op
+                elif _ckind(v) == "list" and len(v):
+                    return rng.choice([["l", idx[0], nm, "delitem", rng.randrange(len(v))],
+                                       ["l", idx[0], nm, "pop", rng.randrange(len(v))],
+                                       ["setcont", idx[0], nm, []], ["recont", idx[0], nm]])
+                elif _ckind(v) == "dict" and len(v):
+                    return rng.choice([["d", idx[0], nm, "del", next(iter(v))], ["d", idx[0], nm, "clear"],
+                                       ["setcont", idx[0], nm, []]])
+                elif _ckind(v) == "set" and len(v):
+                    return rng.choice([["s", idx[0], nm, "pop"], ["s", idx[0], nm, "clear"],
+                                       ["setcont", idx[0], nm, []]])
         if W.last_rep is not None:
             # after a multiplicity-changing slice assignment: usually take one
             # occurrence of an involved object out of the list again
@@ -2379,6 +2523,67 @@ def named_dynamic_cases():
                     else:
                         acts = pre + use1 + [["observe", 0]] + post
                     out.append((kind, name, terminal, text, fname, form, acts))
+    return out
+
+
+def redefine_snapshot_cases():
+    """Strata 'f' and 's' (enumerated).  f: add_trait over an already defined name
+    that holds a value on the path of the expression, then the value (or an item) is
+    detached.  s: a state snapshot (copy.copy / __getstate__ / trait_get) materialises
+    never-read defaults after observe(), then the defaults are used."""
+    out = []
+    redef = [
+        ("child", None, ["child.value", "child:value", "child.child.value", "child.*"],
+         [["set", 0, "child", 1], ["set", 1, "child", 2]],
+         [["set", 0, "child", 3], ["set", 0, "child", None]]),
+        ("children", None, ["children.items.value", "children:items:value", "children.items",
+                            "children.items.child.value"],
+         [["setcont", 0, "children", [1, 2]]],
+         [["l", 0, "children", "delitem", 0], ["setcont", 0, "children", [3]]]),
+        ("cmap", None, ["cmap.items.value", "cmap:items:value"],
+         [["setcont", 0, "cmap", [["x", 1], ["y", 2]]]],
+         [["d", 0, "cmap", "del", "x"], ["setcont", 0, "cmap", [["x", 3]]]]),
+        ("cset", None, ["cset.items.value", "cset:items:value"],
+         [["setcont", 0, "cset", [1, 2]]],
+         [["s", 0, "cset", "discard", 1], ["setcont", 0, "cset", [3]]]),
+        ("xlink", "link", ["xlink.value", "xlink:value", "child.xlink.value"],
+         [["set", 0, "child", 0], ["set", 0, "xlink", 1]],
+         [["set", 0, "xlink", 3], ["set", 0, "xlink", None]]),
+        ("xlist", "list", ["xlist.items.value", "xlist:items:value"],
+         [["setcont", 0, "xlist", [1, 2]]],
+         [["l", 0, "xlist", "delitem", 0], ["setcont", 0, "xlist", [3]]]),
+        ("value", None, ["value", "child.value"], [["set", 0, "child", 1]], []),
+    ]
+    for name, dkind, texts, pre, post in redef:
+        for text in texts:
+            if name == "xlink" and text.startswith("child"):
+                pre_ = [["set", 0, "child", 1], ["set", 1, "xlink", 2]]
+                post_ = [["set", 1, "xlink", 3], ["set", 1, "xlink", None]]
+                own = 1
+            else:
+                pre_, post_ = [p_ for p_ in pre if p_ != ["set", 0, "child", 0]], post
+                own = 1 if (name == "value" and text.startswith("child")) else 0
+            for form in ("text", "expr"):
+                for twice in (False, True):
+                    acts = pre_ + [["observe", 0]] + [["redefine", own, name]] * (2 if twice else 1) + post_
+                    out.append(("f", name, dkind, text, form, acts))
+    snaps = [
+        ("lazy.value", [], 0, [["set", 0, "lazy", 2]]),
+        ("lazy:value", [], 0, []),
+        ("children.items.value", [], 0, [["l", 0, "children", "append", 2], ["l", 0, "children", "delitem", 0]]),
+        ("children.items", [], 0, [["l", 0, "children", "append", 2]]),
+        ("cmap.items.value", [], 0, [["d", 0, "cmap", "set", "x", 2], ["d", 0, "cmap", "del", "x"]]),
+        ("cset.items.value", [], 0, [["s", 0, "cset", "add", 2], ["s", 0, "cset", "discard", 2]]),
+        ("cdef.value", [], 0, [["set", 0, "cdef", 2]]),
+        ("child.lazy.value", [["set", 0, "child", 1]], 1, []),
+        ("child.children.items.value", [["set", 0, "child", 1]], 1, [["l", 1, "children", "append", 2]]),
+        ("children.items.lazy.value", [["setcont", 0, "children", [1, 2]]], 2, [["snap", 1, "copy"]]),
+        ("lazy.lazy.value", [], 0, [["snap", 5, "getstate"]]),
+    ]
+    for text, pre, own, post in snaps:
+        for how in ("copy", "getstate", "trait_get"):
+            for form in ("text", "expr"):
+                out.append(("s", how, None, text, form, pre + [["observe", 0], ["snap", own, how]] + post))
     return out
 
 
@@ -2615,6 +2820,28 @@ def run(ctx):
                 actions = [list(a) for a in acts]
                 res = execute(spec, actions, ctx)
                 ctx.count("histories_named_dynamic")
+                if res["key"]:
+                    report(ctx, spec, actions, res, cid)
+        finally:
+            ctx.end()
+    # ---- strata f / s: re-definition of defined traits, state snapshots (enumerated) -------
+    for fi, (grp, name, dkind, text, form, acts) in enumerate(redefine_snapshot_cases()):
+        if not ctx.mine(fi):
+            continue
+        cid = "%s:%d" % (grp, fi)
+        if not ctx.begin(cid, {"group": grp, "what": name, "expr": text, "form": form}):
+            continue
+        try:
+            ast = parse_text(text)
+            for alleq in (False, True):
+                rs = {"root": 0, "ast": ast, "text": text, "form": form,
+                      "show": repr(text) if form == "text" else describe_ast(ast), "bound": False}
+                spec = {"alleq": alleq, "npool": 5, "regs": [rs], "stratum": grp}
+                if dkind:
+                    spec["dyn"] = {"name": name, "kind": dkind, "terminal": False}
+                actions = [list(a) for a in acts]
+                res = execute(spec, actions, ctx)
+                ctx.count("histories_redefine" if grp == "f" else "histories_snapshot")
                 if res["key"]:
                     report(ctx, spec, actions, res, cid)
         finally:
